@@ -562,6 +562,7 @@ func (p *Prog) inlineUnknownHelpers() error {
 						p.encl[a] = fn
 					}
 					touched[fn] = true
+					p.Inlined++
 					n++
 					if n > 200 {
 						return cerrf("ssainline: runaway inlining of %s", g)
